@@ -17,6 +17,7 @@ mod io;
 mod keys;
 mod props;
 mod sigrec;
+mod wire;
 
 use ctx::{Ctx, Tier};
 
